@@ -21,7 +21,9 @@ CATALOGUE = {
     "wp0": ["{ P0 = RsV; }", "{ P0 = (RsV & 1); }"],
     "wp13": ["{ if (RsV) { P1 = 1; } P3 = RtV; }", "{ if (RtV) { P3 = 0; } P1 = RsV; }"],
     "wpd": ["{ PdV = RsV; }", "{ PdV = (RsV & RtV); }"],
-    "hyb": ["{ i = 0; RdV = ((i++) + clz32(RsV)) + siV; }", "{ j = 1; RdV = ((j++) + clo32(RsV)) + uiV; }"],
+    "hyb": ["{ i = 0; RdV = ((i++) + clz32(RsV)) + siV; }", "{ j = 1; RdV = ((j++) + clo32(RsV)) + uiV; }",
+            # two side-effecting statements without a consumer (their order is kept by the name of their temporaries)
+            "{ i = 0; j = 5; i++; j++; RdV = ((i * 16) + j) + siV; }", "{ i = 3; clz32(RsV); i++; clo32(RtV); RdV = i + uiV; }"],
     "f_parse": ["{ RdV = ; }", "{ RdV = RsV @ 1; }"],
     "f_late": ["{ if (RsV) { P2 = mem_load_u8(RsV + siV); } RdV = (clz32(RsV) + nofunc(RtV)); }",
                "{ if (RtV) { P2 = mem_load_u8(RtV + uiV); } i = 0; while ((i++) + clo32(RsV)) { } }",
@@ -123,6 +125,12 @@ def run(ctx):
     hists = hists[:nh]
     if not hists:
         raise tlc.TLCError("no histories generated:\n" + simr.out[-2000:])
+    # histories around the decimal boundaries of the never-reset temporary counter: k compilations of a behaviour with one
+    # temporary, then a behaviour with two temporaries whose relative order matters (k = 0..13; thorough: also 95..103)
+    hyb = ORDER.index("hyb") + 1
+    for k in list(range(0, 14)) + (list(range(95, 104)) if ctx.tier == "thorough" else []):
+        for probe_ti, entry in ((2, "stmt"), (3, "stmt"), (2, "insn")):
+            hists.append([{"op": "new", "c": 1}] + [{"op": "stmt", "c": 1, "b": hyb, "ti": 0}] * k + [{"op": entry, "c": 1, "b": hyb, "ti": probe_ti}])
     # fresh references: every catalogue text through both entry points, each in its own fresh process
     fresh_jobs = []
     for bid, texts in CATALOGUE.items():
@@ -171,7 +179,7 @@ def run(ctx):
                 pl.append(("new", e["c"], None, None))
             elif e["op"] in ("stmt", "insn"):
                 bid = ORDER[e["b"] - 1]
-                ti = rnd.randrange(len(CATALOGUE[bid]))
+                ti = e["ti"] if "ti" in e else rnd.randrange(len(CATALOGUE[bid]))
                 t = CATALOGUE[bid][ti]
                 if e["op"] == "stmt":
                     steps.append({"op": "stmt", "inst": c, "code": t})
